@@ -1,3 +1,4 @@
 INIT InitLimitFanout
 NEXT Next
 INVARIANT LimitFanoutOK
+CHECK_DEADLOCK FALSE
